@@ -596,6 +596,27 @@ class Interp:
         fi = FuncInfo(st.name, st, self.frame.module, None, "function")
         self.frame.locals[st.name] = FuncVal(fi, closure=self.frame)
 
+    def exec_Delete(self, st):
+        for t in st.targets:
+            if isinstance(t, ast.Subscript):
+                o = self.eval(t.value)
+                k = self.eval(t.slice)
+                if isinstance(o, list) and isinstance(k, int):
+                    if not -len(o) <= k < len(o):
+                        self.raise_("IndexError", "del list item")
+                    del o[k]
+                elif isinstance(o, dict):
+                    hk = self.B.hashable(k)
+                    if hk not in o:
+                        self.raise_("KeyError", "del dict item")
+                    del o[hk]
+                else:
+                    raise Unsupported("del of a symbolic item")
+            elif isinstance(t, ast.Name):
+                self.frame.locals.pop(t.id, None)
+            else:
+                raise Unsupported("del target")
+
     def exec_With(self, st):
         raise Unsupported("with statement")
 
